@@ -1019,7 +1019,7 @@ theorem rt_certificateRequestAt (t : UInt8) (ext : Bytes) (m : CertificateReques
   simp only [h1, ↓reduceIte, h2, bind_ok, h3, h4, h5, hn]
   have h6 : ¬ (m.types.length = 0 ∨
       (m.types ++ (be16 (concatMap caItem m.cas).length ++ concatMap caItem m.cas)).length ≤ m.types.length) := by
-    simp [be16]; omega
+    rw [List.length_append, List.length_append, be16_length]; omega
   have h7 : (m.types ++ (be16 (concatMap caItem m.cas).length ++ concatMap caItem m.cas)).take m.types.length = m.types := by
     simp
   have h8 : sliceFrom (m.types ++ (be16 (concatMap caItem m.cas).length ++ concatMap caItem m.cas)) m.types.length =
@@ -1031,8 +1031,8 @@ theorem rt_certificateRequestAt (t : UInt8) (ext : Bytes) (m : CertificateReques
     rw [sliceFrom_eq (by simp [be16])]; simp [be16]
   have h11 : sliceFrom (concatMap caItem m.cas) (concatMap caItem m.cas).length = .ok [] := by
     rw [sliceFrom_eq (Nat.le_refl _)]; simp
-  simp only [h9, ↓reduceIte, idx16_be16 hcl, bind_ok, h10, Nat.lt_irrefl, List.take_length, h11,
-    casLoop_enc m.cas hc _ (by have := cas_ge_length m.cas; omega), List.length_nil]
+  have h12 := casLoop_enc m.cas hc ((concatMap caItem m.cas).length + 1) (by have := cas_ge_length m.cas; omega)
+  simp only [h9, ↓reduceIte, idx16_be16 hcl, bind_ok, h10, Nat.lt_irrefl, List.take_length, h11, h12, List.length_nil]
 
 theorem total_certificateRequestAt (hl : Nat) (h3 : 3 ≤ hl) (data : Bytes) : decCertificateRequestAt hl data ≠ .panic := by
   unfold decCertificateRequestAt
@@ -1066,5 +1066,184 @@ theorem total_certificateRequestAt (hl : Nat) (h3 : 3 ≤ hl) (data : Bytes) : d
               | panic => exact absurd hr (casLoop_ne_panic _ _)
               | reject => simp
               | ok l => simp only [bind_ok]; split <;> simp
+
+theorem readVec16_cons2 (a b : UInt8) (r : Bytes) (h : nat16 a b ≤ r.length) :
+    readVec16 (a :: b :: r) = some (r.take (nat16 a b), r.drop (nat16 a b)) := by
+  simp [readVec16, readU16, readBytes, h]
+
+theorem data2 {d : Bytes} (h : ¬ d.length < 2) : ∃ a b r, d = a :: b :: r := by
+  match d, h with
+  | a :: b :: r, _ => exact ⟨a, b, r, rfl⟩
+  | [], h => simp at h
+  | [_], h => simp at h
+
+theorem itemsOk_of_casLoop : ∀ (f : Nat) (cas : Bytes) (l : List Bytes) (g : Nat),
+    casLoop f cas = .ok l → cas.length ≤ g → Spec.Codec.itemsOk Spec.Codec.dropVec16 g cas = true := by
+  intro f
+  induction f with
+  | zero => intro cas l g h; simp [casLoop] at h
+  | succ f ih =>
+    intro cas l g h hg
+    unfold casLoop at h
+    split at h
+    · rename_i h0
+      have : cas = [] := List.eq_nil_of_length_eq_zero h0
+      subst this
+      cases g <;> rfl
+    · split at h
+      · cases h
+      · rename_i h0 h2
+        obtain ⟨a, b, r, hd⟩ := data2 h2
+        subst hd
+        simp only [idx16, idx, List.getElem?_cons_zero, List.getElem?_cons_succ, bind_ok, sliceFrom,
+          List.length_cons, Nat.le_add_left, ↓reduceIte, List.drop_succ_cons, List.drop_zero] at h
+        split at h
+        · cases h
+        · rename_i hlen
+          have hr : nat16 a b ≤ r.length := by omega
+          rw [slice_eq (by omega) hr] at h
+          simp only [hr, ↓reduceIte, bind_ok] at h
+          cases hrec : casLoop f (r.drop (nat16 a b)) with
+          | panic => rw [hrec] at h; cases h
+          | reject => rw [hrec] at h; cases h
+          | ok l' =>
+            cases g with
+            | zero => simp at hg
+            | succ g' =>
+              simp only [Spec.Codec.itemsOk, Spec.Codec.dropVec16, readVec16_cons2 a b r hr, Option.map_some]
+              exact ih _ _ g' hrec (by simp only [List.length_drop, List.length_cons] at hg ⊢; omega)
+
+/-- an accepted certificate request (header `hdr`, anything of that length) has an exact body -/
+theorem decCertificateRequestAt_shape (st : Stack) (hdr body : Bytes) {m : CertificateRequest}
+    (h : decCertificateRequestAt hdr.length (hdr ++ body) = .ok m) :
+    Spec.Codec.bodyShape st .certificateRequest body = true := by
+  unfold decCertificateRequestAt at h
+  split at h
+  · cases h
+  · rename_i h1
+    cases hi : idx24 (hdr ++ body) 1 with
+    | panic => rw [hi] at h; cases h
+    | reject => rw [hi] at h; cases h
+    | ok length =>
+      rw [hi] at h
+      simp only [bind_ok] at h
+      split at h
+      · cases h
+      · have hidx := idx_append_right hdr body 0
+        rw [Nat.add_zero] at hidx
+        rw [hidx] at h
+        simp only [List.length_append] at h1
+        cases body with
+        | nil => simp at h1
+        | cons n d =>
+          rw [sliceFrom_append_right hdr _ 1 (by simp)] at h
+          simp only [idx, List.getElem?_cons_zero, bind_ok, List.drop_succ_cons, List.drop_zero] at h
+          split at h
+          · cases h
+          · rename_i hn
+            split at h
+            · cases h
+            · have hnd : n.toNat ≤ d.length := by omega
+              rw [sliceFrom_eq hnd] at h
+              simp only [bind_ok] at h
+              split at h
+              · cases h
+              · rename_i h2
+                obtain ⟨x, y, d2, hd1⟩ := data2 h2
+                rw [hd1] at h
+                simp only [idx16, idx, List.getElem?_cons_zero, List.getElem?_cons_succ, bind_ok, sliceFrom,
+                  List.length_cons, Nat.le_add_left, ↓reduceIte, List.drop_succ_cons, List.drop_zero] at h
+                split at h
+                · cases h
+                · rename_i hcl
+                  have hc : nat16 x y ≤ d2.length := by omega
+                  simp only [hc, ↓reduceIte, bind_ok] at h
+                  cases hloop : casLoop ((d2.take (nat16 x y)).length + 1) (d2.take (nat16 x y)) with
+                  | panic => rw [hloop] at h; cases h
+                  | reject => rw [hloop] at h; cases h
+                  | ok l =>
+                    rw [hloop] at h
+                    simp only [bind_ok] at h
+                    split at h
+                    · rename_i h3
+                      have hd3 : d2.drop (nat16 x y) = [] := List.eq_nil_of_length_eq_zero h3
+                      have hit := itemsOk_of_casLoop _ _ _ (d2.take (nat16 x y)).length hloop (Nat.le_refl _)
+                      simp only [Spec.Codec.bodyShape, Spec.Codec.dropVec8, readVec8, readU8, readBytes, hnd,
+                        ↓reduceIte, Option.map_some, hd1, Spec.Codec.oneVec16, readVec16_cons2 x y d2 hc, hd3,
+                        Spec.Codec.isNil, Spec.Codec.seqOk, hit, Bool.and_self]
+                    · cases h
+
+/-! ### the tlcp complete-message guard (repair F18b) -/
+
+theorem tlcpIsComplete_ne_panic (data : Bytes) (t : Nat) : tlcpIsCompleteMessage data t ≠ .panic := by
+  unfold tlcpIsCompleteMessage
+  split
+  · simp
+  · rename_i h
+    obtain ⟨a, b, c, e, r, hd⟩ := data4 h
+    subst hd
+    simp only [idx, List.getElem?_cons_zero, bind_ok, idx24, List.getElem?_cons_succ]
+    split <;> simp
+
+theorem tlcpIsComplete_mk (t : Nat) {body : Bytes} (hl : body.length < 16777216) :
+    tlcpIsCompleteMessage (u8 t :: (be24 body.length ++ body)) t = .ok true := by
+  simp [tlcpIsCompleteMessage, be24, idx, idx24, nat24_be24 hl]
+
+theorem tlcpIsComplete_true {data : Bytes} {t : Nat} (h : tlcpIsCompleteMessage data t = .ok true) :
+    ∃ body, data = u8 t :: (be24 body.length ++ body) ∧ body.length < 16777216 := by
+  unfold tlcpIsCompleteMessage at h
+  split at h
+  · simp at h
+  · rename_i hl
+    obtain ⟨a, b, c, e, r, hd⟩ := data4 hl
+    subst hd
+    simp only [idx, List.getElem?_cons_zero, bind_ok, idx24, List.getElem?_cons_succ] at h
+    split at h
+    · simp at h
+    · rename_i hty
+      simp only [ne_eq, Decidable.not_not] at hty
+      simp only [List.length_cons, Outcome.ok.injEq, decide_eq_true_eq] at h
+      have hn : nat24 b c e = r.length := by omega
+      refine ⟨r, ?_, by rw [← hn]; exact nat24_lt _ _ _⟩
+      rw [← hn, be24_nat24, hty]; rfl
+
+theorem guardT_pass {α : Type} (c : Codes) (t : Nat) {body : Bytes} (hl : body.length < 16777216) (k : Outcome α) :
+    guardT c t (u8 t :: (be24 body.length ++ body)) k = k := by
+  unfold guardT guardWith
+  split
+  · rw [tlcpIsComplete_mk t hl]
+  · rfl
+
+theorem guardT_ok {α : Type} {c : Codes} {t : Nat} {data : Bytes} {k : Outcome α} {m : α}
+    (hon : c.complete.contains t = true) (h : guardT c t data k = .ok m) :
+    k = .ok m ∧ ∃ body, data = u8 t :: (be24 body.length ++ body) ∧ body.length < 16777216 := by
+  unfold guardT guardWith at h
+  rw [hon] at h
+  simp only [↓reduceIte] at h
+  split at h
+  · rename_i hc
+    exact ⟨h, tlcpIsComplete_true hc⟩
+  · cases h
+  · cases h
+  · cases h
+
+theorem guardT_ne_panic {α : Type} (c : Codes) (t : Nat) (data : Bytes) {k : Outcome α} (hk : k ≠ .panic) :
+    guardT c t data k ≠ .panic := by
+  unfold guardT guardWith
+  split
+  · split
+    · exact hk
+    · simp
+    · simp
+    · rename_i hc; exact absurd hc (tlcpIsComplete_ne_panic _ _)
+  · exact hk
+
+/-- what the guard gives: the accepted input is well framed -/
+theorem framed_of_guardT {α : Type} {c : Codes} {t : Nat} {data : Bytes} {k : Outcome α} {m : α}
+    (hon : c.complete.contains t = true) (h : guardT c t data k = .ok m) :
+    k = .ok m ∧ Spec.Codec.framed .tlcp data = true := by
+  obtain ⟨hk, body, hd, hl⟩ := guardT_ok hon h
+  subst hd
+  exact ⟨hk, framed_tlcp_mk _ hl⟩
 
 end Gotlcp.Lemmas.Codec
